@@ -50,6 +50,7 @@ def run(ctx):
     runner = G.Runner()
     events, owner, cases = [], [], []
     ndisp = 0
+    nreentry = [0]
     for pi, prog in enumerate(progs):
         prog.pop('tag', None)
         text = G.render(prog)
@@ -57,19 +58,34 @@ def run(ctx):
             raise core.MachineryError('family program rejected: %r' % text)
         base = runner.run(pi + 1, prog['vars'])
         n = sum(1 for e in base if e['a'] == 'b')
-        for sched in schedules_for(ctx, n, ctx.quick()):
+        reentry = None
+        todo = list(schedules_for(ctx, n, ctx.quick()))
+        while todo:
+            sched = todo.pop(0)
             ev = runner.run(pi + 1, prog['vars'], schedule=sched)
             cases.append((pi, sched, text))
             owner += [len(cases) - 1] * len(ev)
             events += ev
             ndisp += sum(1 for e in ev if any(x in (9, 7) for x in e.get('out', [])))
             ctx.count([text, sorted(sched.items())])
+            if reentry is None and len(sched) == 1 and list(sched.values()) == [[1]]:
+                # handler-reentry schedules (choice of inputs only): the first single occurrence of event 1 that made handler 1
+                # (line 100) run is repeated with a second occurrence of the same event at every boundary inside the handler,
+                # i.e. before and after the handler's own KEY(1) ON / OFF / STOP
+                bs = [e for e in ev if e['a'] == 'b']
+                inside = [i + 1 for i, e in enumerate(bs) if e['line'] == 100]
+                if inside:
+                    b0 = list(sched)[0]
+                    reentry = [{b0: [1], k: [1]} if k != b0 else {b0: [1, 1]} for k in inside[:4] + [inside[-1] + 1]]
+                    todo += reentry
+                    nreentry[0] += len(reentry)
         if runner.count > 400:
             runner.close()
             runner = G.Runner()
             runner.load(text)
     runner.close()
     ctx.cov['handler_entries_observed'] = ndisp
+    ctx.cov['handler_reentry_schedules'] = nreentry[0]
     if ndisp < 20:
         raise core.MachineryError('vacuous: handlers almost never ran')
     slim = [{k: v for k, v in e.items() if k not in ('raw', 'detail')} for e in events]
